@@ -31,7 +31,8 @@ EXPLANATION = (
     'with the registered placeholders; emit_wrapped_text forwards each wrapping option to the '
     'like-named textwrap.fill parameter. R4: indent/block restore cur_indent symmetrically. '
     'Decides these structural parts; word order of wrapped text is textwrap\'s.'
-    ' RD (decision drift, stonelint.conddrift): the tests of the functions this property is anchored in (stonelint.ownership) are compared with reference/conditions.json; a relation, polarity or connective changed over the same operands, or an operand purely added or dropped, is a violation; re-spellings and new or removed tests are not claimed.')
+    ' RD (decision drift, stonelint.conddrift): the tests of the functions this property is anchored in (stonelint.ownership) are compared with reference/conditions.json; a relation, polarity or connective changed over the same operands, or an operand purely added or dropped, is a violation; re-spellings and new or removed tests are not claimed.'
+    " RE (expression drift, stonelint.exprdrift): the same functions' attribute names, variable reads, simple statements, calls and arithmetic/slice literals are compared with reference/expressions.json; a substituted attribute or variable, a dropped call or assignment, swapped arguments or a changed literal is a violation; any other edit is not claimed.")
 ASSUMPTIONS = [
     'library model: shutil.copy(src, dst) writes to join(dst, basename(src)) when dst is a '
     'directory, else to dst; os.path.relpath/abspath normalise `..` segments lexically',
@@ -394,6 +395,8 @@ def run(pm, ctx):
     from ..conddrift import run_decisions
     from ..ownership import OWN
     run_decisions(pm, ctx, 'C18-RD', OWN['C18'])
+    from .. import exprdrift
+    exprdrift.run(pm, ctx, 'C18-RE', OWN['C18'])
 
 
 def _check_sink(pm, ctx, f, call, d, kind):
